@@ -89,18 +89,24 @@ def run(rep, tier):
                 raise AnalysisBroken("latch::%s: expected one write of notified_" % name)
             b, i, ev = w[0]
             fb = ff.before.get((b, i)) or frozenset()
+            U = fn.params[0]["name"] if fn.params else "update"            # the amount to count down by (the parameter's name is free)
             if name == "count_down":
-                ini = local_init(fn, "new_count")
-                zero = ("0 == new_count", True) in fb or ("new_count == 0", True) in fb
-                derived = ini is not None and "this->counter_" in T(ini) and "-=" in T(ini)
+                # the local that receives (counter_ -= n), whatever it is called
+                nc = [e for _, _, e in fn.all_events() if e.get("k") == "decl" and e.get("init") is not None and "this->counter_" in T(e["init"]) and "-=" in T(e["init"])]
+                NC = nc[0]["var"] if nc else "new_count"
+                ini = nc[0]["init"] if nc else None
+                zero = ("0 == %s" % NC, True) in fb or ("%s == 0" % NC, True) in fb
+                derived = ini is not None and re.search(r"(^|[^\w])%s($|[^\w])" % re.escape(U), T(ini)) is not None
                 cond = zero and derived
-                why = "new_count == 0 where new_count = (counter_ -= update)"
+                why = "%s == 0 where %s = (counter_ -= %s)" % (NC, NC, U)
             else:
-                ini = local_init(fn, "old_count")
-                last = ("update < old_count", False) in fb
-                derived = ini is not None and "this->counter_.fetch_sub(update" in T(ini)
+                oc = [e for _, _, e in fn.all_events() if e.get("k") == "decl" and e.get("init") is not None and ("this->counter_.fetch_sub(%s" % U) in T(e["init"])]
+                OC = oc[0]["var"] if oc else "old_count"
+                ini = oc[0]["init"] if oc else None
+                last = ("%s < %s" % (U, OC), False) in fb
+                derived = ini is not None
                 cond = last and derived
-                why = "!(old_count > update) where old_count = counter_.fetch_sub(update)"
+                why = "!(%s > %s) where %s = counter_.fetch_sub(%s)" % (OC, U, OC, U)
             if cond and T(strip(ev["rhs"])) == "true":
                 rep.ok("C09.R1", fn, "notified_ = true only on the edge %s" % why)
             else:
@@ -115,10 +121,10 @@ def run(rep, tier):
                 fbn = ff.before.get(nfy[0]) or frozenset()
         if name == "arrive_and_wait":
             wt = [(b, i, ev) for b, i, ev in fn.all_events() if ev.get("k") == "call" and callee_short(ev) == "wait" and "cond_" in P(ev.get("recv"))]
-            if len(wt) == 1 and ("update < old_count", True) in (ff.before.get((wt[0][0], wt[0][1])) or frozenset()):
-                rep.ok("C09.R1", fn, "waits exactly when other participants are still missing (old_count > update)")
+            if len(wt) == 1 and ("%s < %s" % (U, OC), True) in (ff.before.get((wt[0][0], wt[0][1])) or frozenset()):
+                rep.ok("C09.R1", fn, "waits exactly when other participants are still missing (%s > %s)" % (OC, U))
             else:
-                rep.bad("C09.R1", fn, fn.loc, "arrive-wait", "arrive_and_wait must wait iff old_count > update")
+                rep.bad("C09.R1", fn, fn.loc, "arrive-wait", "arrive_and_wait must wait iff the count before the decrement exceeds the decrement")
             fs = [(b, i, ev) for b, i, ev in fn.all_events() if ev.get("k") == "call" and callee_short(ev) == "fetch_sub"]
             if fs and LOCK in (lf.held_before((fs[0][0], fs[0][1])) or frozenset()):
                 rep.ok("C09.R1", fn, "the decrement happens under the lock (no notify between decrement and wait)")
